@@ -106,26 +106,29 @@ def translate_locked():
     # wire translator (Rust -> Gallina for the straight-line codec functions), Gen/LeafWire.v; its summary is
     # merged into tr["leaf"] (names are prefixed wire_), so a function a property lists in leaf_functions that
     # could not be translated is reported as a broken obligation like any other leaf
-    rc, wout, _ = sh([sys.executable, os.path.join(ROOT, "tools", "gen_wire.py")], timeout=120)
-    try:
-        wire = json.loads(wout) if rc == 0 else None
-    except ValueError:
-        wire = None
-    if wire is None:
-        # the translator itself broke: every wire_* function any property lists counts as not translated
-        wire = {"failed": {"gen_wire.py": wout[-300:]}, "translated": [], "meta": {}, "changed": []}
-        for f in glob.glob(os.path.join(ROOT, "props", "C*.json")):
-            try:
-                for n in json.load(open(f)).get("leaf_functions", []):
-                    if n.startswith("wire_"):
-                        wire["failed"][n] = "gen_wire.py failed: " + wout[-200:]
-            except (OSError, ValueError):
-                pass
+    # ... and the dispatch slicer (tools/gen_uplink.py, Gen/LeafUplink.v: the type-code dispatch of the uplink
+    # receive path), run after gen_wire.py because its output refers to definitions of Gen/LeafWire.v
     leaf = tr["leaf"]
-    leaf.setdefault("failed", {}).update(wire.get("failed") or {})
-    leaf["translated"] = sorted(set(leaf.get("translated", [])) | set(wire.get("translated", [])))
-    leaf.setdefault("meta", {}).update(wire.get("meta") or {})
-    leaf["changed"] = list(leaf.get("changed", [])) + list(wire.get("changed", []))
+    for tool in ("gen_wire.py", "gen_uplink.py"):
+        rc, wout, _ = sh([sys.executable, os.path.join(ROOT, "tools", tool)], timeout=120)
+        try:
+            wire = json.loads(wout) if rc == 0 else None
+        except ValueError:
+            wire = None
+        if wire is None:
+            # the translator itself broke: every wire_* function any property lists counts as not translated
+            wire = {"failed": {tool: wout[-300:]}, "translated": [], "meta": {}, "changed": []}
+            for f in glob.glob(os.path.join(ROOT, "props", "C*.json")):
+                try:
+                    for n in json.load(open(f)).get("leaf_functions", []):
+                        if n.startswith("wire_") and (n.startswith("wire_uplink_") == (tool == "gen_uplink.py")):
+                            wire["failed"][n] = tool + " failed: " + wout[-200:]
+                except (OSError, ValueError):
+                    pass
+        leaf.setdefault("failed", {}).update(wire.get("failed") or {})
+        leaf["translated"] = sorted(set(leaf.get("translated", [])) | set(wire.get("translated", [])))
+        leaf.setdefault("meta", {}).update(wire.get("meta") or {})
+        leaf["changed"] = list(leaf.get("changed", [])) + list(wire.get("changed", []))
     return tr, ""
 
 
